@@ -8,7 +8,7 @@ class Check(RuntimeCheck):
     prop = 'C01'
     design_ref = 'DESIGN.md §4.3, §5 C01'
     theorems = ['C01_first_match_answers', 'C01_no_match', 'C01_frame', 'C01_selected_counted',
-                'C01_choice_ignores_history', 'C01_other_methods_irrelevant', 'filterMapped_is_scan', 'C01_source_scan_is_model_scan', 'C01_source_match_inputs']
+                'C01_choice_ignores_history', 'C01_other_methods_irrelevant', 'filterMapped_is_scan', 'C01_source_scan_is_model_scan', 'C01_source_match_inputs', 'C01_source_unordered_is_model', 'C01_source_count_bump']
 
     def rule(self):
         return ("exhaustive: every list of 1..3 unordered patterns of one method (some_call/each_call/stub in every "
